@@ -164,7 +164,9 @@ func executeCtx(t *testing.T, prop string, seed uint64, p *CtxPlan) *core.Result
 				go func() {
 					defer close(asyncDone)
 					<-firedCh // parked (durably) until the hello is being handed over
-					for i := 0; i < p.Spin; i++ {
+					// the cancel sweeps the time NewConn needs to finish, repetition by repetition
+					n := p.Spin * (rep + 1) / reps
+					for i := 0; i < n; i++ {
 						if fired.Load() && i < 0 {
 							return
 						}
@@ -349,7 +351,7 @@ func genC10(seed uint64, idx int) *Plan {
 		c.After = []string{"none", "cancel"}[r.IntN(2)]
 		c.SlowDeadline = []int{0, 10, 200}[r.IntN(3)]
 		if c.InRead == "cancel-async" {
-			c.Spin = []int{0, 10, 100, 1000, 10000}[r.IntN(5)]
+			c.Spin = []int{1000, 100000, 400000, 1000000}[r.IntN(4)]
 			c.Reps = 48
 			if c.Procs == 1 {
 				c.Procs = 4
